@@ -21,4 +21,9 @@ StateRec(st, en, p, q) ==
 EmitEdge == PrintT(ToJson([a |-> last', lvl |-> TLCGet("level"), s |-> StateRec(start, end, pts, qtab),
                            t |-> StateRec(start', end', pts', qtab')]))
 View == vars
+
+\* Timeline refines its object-free abstraction TimelineLocal (the spec hook traces are validated against)
+Local == INSTANCE TimelineLocal WITH LTimes <- Times, LQuarters <- Quarters, lpts <- pts, lqtab <- qtab,
+            lcnt <- [t \in pts |-> Cardinality({o \in ObjPool : start[o] = t}) + Cardinality({o \in ObjPool : end[o] = t})]
+RefinesLocal == Local!LSpec
 =============================================================================
